@@ -99,7 +99,7 @@ fn run_conn(sc: &J, rec: &Rc<RefCell<Rec>>) {
     }));
     let ts = tstate.borrow();
     let inner_panic = shared.borrow().panicked.clone();
-    let mut end = json!({"e": "end"});
+    let mut end = json!({"e": "end", "site": "", "msg": "", "err": {"k": "none", "token": -1}});
     match res {
         Err(_) => {
             let (loc, msg) = take_panic().unwrap_or(("?".into(), "?".into()));
@@ -121,12 +121,12 @@ fn run_conn(sc: &J, rec: &Rc<RefCell<Rec>>) {
                     }
                     Err(shim::SErr::Io(e)) => {
                         end["result"] = json!("err");
-                        end["err"] = json!({"io": format!("{:?}", e.kind()), "msg": e.to_string(),
-                                             "injected": e.to_string().starts_with("injected")});
+                        end["err"] = json!({"k": "io", "kind": format!("{:?}", e.kind()), "msg": e.to_string(),
+                                             "injected": e.to_string().starts_with("injected"), "token": -1});
                     }
                     Err(shim::SErr::Shim(t)) => {
                         end["result"] = json!("err");
-                        end["err"] = json!({"shim": t});
+                        end["err"] = json!({"k": "shim", "token": t});
                     }
                     Err(shim::SErr::Panic) => {
                         end["result"] = json!("panic");
